@@ -94,6 +94,20 @@ func (ex *Exec) callWith(fr *Frame, st *State, cc *ssa.CallCommon, fnv Val, args
 func (ex *Exec) dispatch(fr *Frame, st *State, key string, fn *ssa.Function, free []Val, args []Val, sig *types.Signature, rt types.Type, pos token.Pos, invoke bool) Val {
 	ex.callOrd[key]++
 	ord := ex.callOrd[key]
+	if fr.depth == 0 || true {
+		for pat, c := range ex.callCells {
+			if calleeMatches(key, pat) {
+				cur, ok := st.cells[c]
+				if !ok {
+					cur = Val{T: c.T, L: []*Term{Int(0)}}
+				}
+				st.cells[c] = Val{T: c.T, L: []*Term{Add(cur.S(), Int(1))}}
+				if ex.wlog != nil {
+					ex.wlog.cells[c] = true
+				}
+			}
+		}
+	}
 	// call-site assertions of the function under verification (top frame only)
 	if fr.con != nil && ex.dry == 0 {
 		for _, ca := range fr.con.Asserts {
@@ -384,6 +398,15 @@ func (ex *Exec) bindLets(env *SpecEnv, con *Contract) {
 
 // havocDesignator forgets the locations named by a modifies designator (evaluated in envPre) in state st.
 func (ex *Exec) havocDesignator(envPre *SpecEnv, st *State, d *SExpr) {
+	if d.Op == "call" && d.Args[0].Op == "id" && d.Args[0].Name == "obj" {
+		v := ex.evalSpec(envPre, d.Args[1])
+		if v.Loc != nil && v.Loc.Kind == locCell {
+			nv := FreshVal("c_"+v.Loc.Cell.Name, v.Loc.T)
+			ex.typeFacts(st, nv)
+			ex.store(st, v.Loc, nv)
+			return
+		}
+	}
 	for _, hr := range ex.designatorHeaps(envPre, d) {
 		srt, ok := ex.heapSrt[hr.name]
 		if !ok {
